@@ -44,7 +44,7 @@ Init == /\ pid \in 1..Len(Progs)
         /\ sup = [i \in 1..Len(Progs[pid].sups[cfg][supi]) |-> SeqSet(Progs[pid].sups[cfg][supi][i])]
         /\ variant \in {[haloOnly |-> h, dropBelow |-> b] : h \in (IF Progs[pid].usesHalo THEN {TRUE, FALSE} ELSE {TRUE}), b \in (IF Progs[pid].usesNonUniform THEN {TRUE, FALSE} ELSE {TRUE})}
         /\ pc = 1 /\ stack = <<>> /\ err = "" /\ upd = 0 /\ acts = 0 /\ stamps = {} /\ dup = FALSE /\ nstd = 0
-        /\ mp = MpInit
+        /\ mp = MpInit @@ [lie |-> ""]      \* + the first tensor variable read while its rank ids spelled something else (C05/C07)
         /\ store = [i \in 1..Len(Progs[pid].inputs) |-> InputStore(i)]
         /\ objs = [i \in 1..Len(Progs[pid].inputs) |-> [ids |-> Progs[pid].inputs[i].ids, sid |-> i, pre |-> <<>>]]
         /\ env = [x \in {Progs[pid].inputs[i].var : i \in 1..Len(Progs[pid].inputs)} \cup DOMAIN Progs[pid].configs[cfg] |->
@@ -260,9 +260,19 @@ Stuck_ == /\ OK
          /\ ~(G_TensorCtor \/ G_CreateCanvas \/ G_TensorMeth \/ G_AssignValue \/ G_SetRankIds \/ G_AddActivity \/ G_SetAdd \/ G_OtherCall \/ G_SetItem
               \/ G_SetItemNested \/ G_AugNested \/ G_AugDict \/ G_Update \/ G_ForNonFiber \/ G_For \/ G_EndFor \/ G_If \/ G_Jump)
          /\ Fail("statement is not executable on the reference model")
+ConcatIds(ids) == FoldLeft(LAMBDA a, b : a \o b, "", ids)
+\* intermediate layout (C05) / names tell the truth at every use (C07): a tensor variable <T>_<R> is read while the object it names has
+\* rank ids that do not spell R.  (The statement `X.setRankIds(...)` itself is the one place where the emitted code names an object
+\* before giving it its ids -- a split has just produced library-chosen ids -- and is exempt.)
+LieAt == IF I.op = "expr" /\ IsMeth(I.e, "setRankIds") THEN ""
+         ELSE LET rd == ReadsOf(I)
+                  bad == {i \in 1..Len(Prog.tvars) : /\ Prog.tvars[i].var \in rd /\ Prog.tvars[i].var \in DOMAIN env
+                                                      /\ env[Prog.tvars[i].var].k = "ten"
+                                                      /\ ConcatIds(objs[env[Prog.tvars[i].var].o].ids) # Prog.tvars[i].spelled} IN
+              IF bad = {} THEN "" ELSE Prog.tvars[CHOOSE i \in bad : TRUE].var
 Common == /\ UNCHANGED <<pid, cfg, supi, sup, variant>>
           /\ (IsActivity \/ IsCanvas \/ UNCHANGED obsv)
-          /\ mp' = IF Unbound = {} THEN MpNext ELSE mp
+          /\ mp' = IF Unbound = {} THEN [MpNext EXCEPT !.lie = IF @ = "" THEN LieAt ELSE @] ELSE mp
           /\ nstd' = IF err' = "" /\ I.op \in {"assign", "aug", "setitem"} THEN nstd + 1 ELSE nstd
 \* every action = its statement-specific part (X_) + the part common to all steps (constants, observers, protocol monitor)
 UnboundName == UnboundName_ /\ Common
@@ -362,6 +372,7 @@ Failing ==
      IF ~InputsUnchanged THEN "InputsUnchanged" ELSE "",
      IF ~WithinExtentAtDone THEN "WithinExtent" ELSE "",
      IF ~NamesTruthfulAtDone THEN "NamesTruthful" ELSE "",
+     IF mp.lie # "" THEN "NamesTruthful: " \o mp.lie \o " is used while its rank ids spell something else" ELSE "",
      IF mp.bad # "" THEN "Protocol: " \o mp.bad ELSE "",
      IF Prog.metrics /\ mp.sections # Len(Prog.einsums) THEN "Protocol: collection not opened exactly once per Einsum" ELSE "",
      IF Prog.metrics /\ mp.phase = "collecting" THEN "Protocol: collection never closed" ELSE "",
